@@ -271,9 +271,9 @@ func genStompMsgs(r *Rng) []stmMsg {
 		case 3:
 			b = r.Bytes(4) // exactly the prefix: an empty payload
 		default:
-			m := genHeaders(r, true)
+			m := smallHeaders(r)
 			m["_opid"] = "0"
-			fr := frameOf(marshalSorted(m), genPayload(r))
+			fr := frameOf(marshalSorted(m), smallPayload(r))
 			if r.Bool() {
 				fr, _ = mutate(r, fr, sizeFieldOffsets(fr))
 			}
